@@ -3,7 +3,187 @@ import MpirProofs.Lemmas.Base
 import Mpir.Model.Conv
 import Mathlib.Tactic.Ring
 import Mathlib.Tactic.Linarith
+import Mathlib.Tactic.NormNum
+import Mathlib.Tactic.Positivity
 namespace Mpir.Conv
 open Mpir
+
+/-! ### sign -/
+
+theorem sgn_pos {x : Int} (h : 0 < x) : sgn x = 1 := by unfold sgn; rw [if_neg (by omega), if_pos h]
+theorem sgn_neg {x : Int} (h : x < 0) : sgn x = -1 := by unfold sgn; rw [if_pos h]
+theorem Bpow_pos (k : Nat) : 0 < B ^ k := Nat.pow_pos B_pos
+theorem sgn_zero : sgn 0 = 0 := by decide
+theorem sgn_eq_pos {c x : Int} (hc : 0 < c) (hx : 0 < x) : sgn c = sgn x := by rw [sgn_pos hc, sgn_pos hx]
+theorem sgn_eq_neg {c x : Int} (hc : c < 0) (hx : x < 0) : sgn c = sgn x := by rw [sgn_neg hc, sgn_neg hx]
+theorem sgn_eq_zero {c x : Int} (hc : c = 0) (hx : x = 0) : sgn c = sgn x := by rw [hc, hx]
+theorem sgn_neg_eq (x : Int) : sgn (-x) = -sgn x := by
+  rcases lt_trichotomy x 0 with h | h | h
+  · rw [sgn_neg h, sgn_pos (by omega)]; rfl
+  · subst h; decide
+  · rw [sgn_pos h, sgn_neg (by omega)]
+theorem sgn_eq_iff (x : Int) : (sgn x = 1 ↔ 0 < x) ∧ (sgn x = 0 ↔ x = 0) ∧ (sgn x = -1 ↔ x < 0) := by
+  rcases lt_trichotomy x 0 with h | h | h
+  · rw [sgn_neg h]; omega
+  · subst h; simp [sgn_zero]
+  · rw [sgn_pos h]; omega
+theorem sgn_sgn (x : Int) : sgn (sgn x) = sgn x := by
+  rcases lt_trichotomy x 0 with h | h | h
+  · rw [sgn_neg h]; decide
+  · subst h; decide
+  · rw [sgn_pos h]; decide
+
+/-! ### big-endian value and mpn_cmp -/
+
+/-- value of a limb list written most significant first -/
+def valR : List Nat → Nat
+  | [] => 0
+  | x :: xs => x * B ^ xs.length + valR xs
+
+theorem valR_lt : ∀ (l : List Nat), Limbs l → valR l < B ^ l.length
+  | [], _ => by simp [valR]
+  | x :: xs, h => by
+    have ⟨hx, hxs⟩ := Limbs_cons.mp h
+    have ih := valR_lt xs hxs
+    simp only [valR, List.length_cons, pow_succ]
+    nlinarith [B_pos]
+
+theorem valR_append_single (a : List Nat) (x : Nat) : valR (a ++ [x]) = valR a * B + x := by
+  induction a with
+  | nil => simp [valR]
+  | cons y ys ih => simp only [List.cons_append, valR, ih, List.length_append, List.length_cons, List.length_nil, pow_succ]; ring
+
+theorem valR_reverse (l : List Nat) : valR l.reverse = val l := by
+  induction l with
+  | nil => rfl
+  | cons x xs ih => rw [List.reverse_cons, valR_append_single, ih, val_cons]; ring
+
+theorem Limbs_reverse {l : List Nat} (h : Limbs l) : Limbs l.reverse := fun x hx => h x (List.mem_reverse.mp hx)
+
+theorem cmpRev_spec : ∀ (a b : List Nat), Limbs a → Limbs b → a.length = b.length →
+    cmpRev a b = sgn ((valR a : Int) - valR b)
+  | [], [], _, _, _ => by simp [cmpRev, valR, sgn_zero]
+  | [], _ :: _, _, _, h => by simp at h
+  | _ :: _, [], _, _, h => by simp at h
+  | x :: xs, y :: ys, ha, hb, hl => by
+    have ⟨_, hxs⟩ := Limbs_cons.mp ha
+    have ⟨_, hys⟩ := Limbs_cons.mp hb
+    have hl' : xs.length = ys.length := by simpa using hl
+    have l1 := valR_lt xs hxs
+    have l2 := valR_lt ys hys
+    rw [hl'] at l1
+    simp only [cmpRev, valR, hl']
+    generalize B ^ ys.length = P at *
+    by_cases hxy : x = y
+    · subst hxy
+      simp only [ne_eq, not_true_eq_false, if_false]
+      rw [cmpRev_spec xs ys hxs hys hl']
+      congr 1; push_cast; ring
+    · simp only [ne_eq, hxy, not_false_eq_true, if_true]
+      by_cases hgt : x > y
+      · simp only [hgt, if_true]
+        rw [sgn_pos]; push_cast
+        have : (y + 1) * P ≤ x * P := Nat.mul_le_mul_right _ hgt
+        zify at this l1 l2; nlinarith
+      · simp only [hgt, if_false]
+        have hlt : x < y := by omega
+        rw [sgn_neg]; push_cast
+        have : (x + 1) * P ≤ y * P := Nat.mul_le_mul_right _ hlt
+        zify at this l1 l2; nlinarith
+
+/-- mpn_cmp / MPN_CMP on equally long operands is the sign of the difference of the values. -/
+theorem cmp_spec (u v : List Nat) (hu : Limbs u) (hv : Limbs v) (hl : u.length = v.length) :
+    Mpir.cmp u v = sgn ((val u : Int) - val v) := by
+  unfold Mpir.cmp
+  rw [cmpRev_spec _ _ (Limbs_reverse hu) (Limbs_reverse hv) (by simpa using hl), valR_reverse, valR_reverse]
+
+/-! ### normalised limb vectors -/
+
+/-- high limb non-zero -/
+def TopNZ (l : List Nat) : Prop := l ≠ [] → l.getLast? ≠ some 0
+
+theorem val_ge_of_top : ∀ (l : List Nat), l ≠ [] → TopNZ l → B ^ (l.length - 1) ≤ val l
+  | [], h, _ => absurd rfl h
+  | [x], _, ht => by
+    have : x ≠ 0 := by intro h; subst h; exact ht (by simp) (by simp)
+    simp only [List.length_singleton, Nat.sub_self, pow_zero, val_cons, val_nil]; omega
+  | x :: y :: ys, _, ht => by
+    have ih := val_ge_of_top (y :: ys) (by simp) (by
+      intro _; have := ht (by simp); simpa [List.getLast?_cons_cons] using this)
+    simp only [List.length_cons, val_cons] at ih ⊢
+    have : B ^ (ys.length + 1 + 1 - 1) = B * B ^ (ys.length + 1 - 1) := by
+      simp only [Nat.add_sub_cancel]; rw [pow_succ]; ring
+    rw [this]; nlinarith [B_pos]
+
+theorem val_eq_zero_of_nil {l : List Nat} (h : l.length = 0) : val l = 0 := by
+  cases l with | nil => rfl | cons _ _ => simp at h
+
+/-- facts about a well-formed mpz used everywhere -/
+theorem Z.wf_bounds {z : Z} (h : z.wf) :
+    (z.size = 0 → val z.d = 0) ∧ (z.size ≠ 0 → B ^ (z.size.natAbs - 1) ≤ val z.d) ∧ val z.d < B ^ z.size.natAbs := by
+  obtain ⟨hl, hL, ht⟩ := h
+  refine ⟨fun h0 => val_eq_zero_of_nil (by rw [hl, h0]; rfl), fun hn => ?_, by rw [← hl]; exact val_lt _ hL⟩
+  have hne : z.d ≠ [] := by intro e; rw [e] at hl; simp at hl; omega
+  rw [← hl]; exact val_ge_of_top _ hne ht
+
+theorem pow_le_pow_B {a b : Nat} (h : a ≤ b) : B ^ a ≤ B ^ b := Nat.pow_le_pow_right B_pos h
+
+theorem Z.toInt_lt_of_size_lt {a b : Z} (ha : a.wf) (hb : b.wf) (h : a.size < b.size) : a.toInt < b.toInt := by
+  obtain ⟨a0, a1, a2⟩ := Z.wf_bounds ha
+  obtain ⟨b0, b1, b2⟩ := Z.wf_bounds hb
+  unfold Z.toInt
+  by_cases han : a.size < 0
+  · have a1' := a1 (by omega)
+    have : 0 < val a.d := lt_of_lt_of_le (Bpow_pos _) a1'
+    by_cases hbn : b.size < 0
+    · -- both negative: |a| ≥ B^(na-1) ≥ B^nb > |b|
+      simp only [han, hbn, if_true]
+      have : B ^ b.size.natAbs ≤ B ^ (a.size.natAbs - 1) := pow_le_pow_B (by omega)
+      have : val b.d < val a.d := by omega
+      omega
+    · simp only [han, hbn, if_true, if_false]; omega
+  · have hbn : ¬ b.size < 0 := by omega
+    simp only [han, hbn, if_false]
+    have b1' := b1 (by omega)
+    have : B ^ a.size.natAbs ≤ B ^ (b.size.natAbs - 1) := pow_le_pow_B (by omega)
+    have : val a.d < val b.d := by omega
+    omega
+
+theorem Z.toInt_sign {z : Z} (h : z.wf) :
+    (z.size < 0 → z.toInt < 0) ∧ (z.size = 0 → z.toInt = 0) ∧ (z.size > 0 → z.toInt > 0) := by
+  obtain ⟨a0, a1, _⟩ := Z.wf_bounds h
+  unfold Z.toInt
+  refine ⟨fun hn => ?_, fun hz => ?_, fun hp => ?_⟩
+  · have := a1 (by omega); have : 0 < val z.d := lt_of_lt_of_le (Bpow_pos _) this
+    simp only [hn, if_true]; omega
+  · have := a0 hz; simp only [hz]; simp [this]
+  · have := a1 (by omega); have : 0 < val z.d := lt_of_lt_of_le (Bpow_pos _) this
+    have : ¬ z.size < 0 := by omega
+    simp only [this, if_false]; omega
+
+theorem Z.natAbs_toInt (z : Z) : z.toInt.natAbs = val z.d := by
+  unfold Z.toInt; split <;> simp
+
+/-- a one-limb operand -/
+theorem Z.one_limb {z : Z} (h : z.wf) (h1 : z.size.natAbs = 1) :
+    ∃ x, z.d = [x] ∧ x < B ∧ x ≠ 0 ∧ val z.d = x := by
+  obtain ⟨hl, hL, ht⟩ := h
+  rw [h1] at hl
+  match hd : z.d, hl with
+  | [x], _ =>
+    refine ⟨x, rfl, ?_, ?_, by simp⟩
+    · exact hL x (by rw [hd]; simp)
+    · intro e; subst e; rw [hd] at ht; exact ht (by simp) (by simp)
+
+theorem Z.big_of_two_limbs {z : Z} (h : z.wf) (h2 : 2 ≤ z.size.natAbs) : B ≤ val z.d := by
+  obtain ⟨_, a1, _⟩ := Z.wf_bounds h
+  have := a1 (by omega)
+  have : B ^ 1 ≤ B ^ (z.size.natAbs - 1) := pow_le_pow_B (by omega)
+  simp only [pow_one] at this; omega
+
+/-- low limb / rest decomposition -/
+theorem val_split : ∀ (l : List Nat), Limbs l → ∃ r, val l = l.getD 0 0 + B * r ∧ l.getD 0 0 < B
+  | [], _ => ⟨0, by simp, by simp [B_pos]⟩
+  | x :: xs, h => ⟨val xs, by simp, by simpa using (Limbs_cons.mp h).1⟩
 
 end Mpir.Conv
